@@ -2062,24 +2062,23 @@ Section Stmt.
   Hypothesis Hinj : forall a b, num a = num b -> a = b.
 
   (* binding a translated value whose definitions carry the names of its type *)
-  Lemma bind_res_sound rho G V x r v :
+  (* the core: rho' assigns to the numbered names of the definitions their values under rho, and
+     is rho elsewhere *)
+  Lemma bind_res_core rho rho' G V x r v :
     env_ok num rho G V -> env_canon G -> sem rho r v ->
     map fst (decompose [x] (snd r)) = arg_names [x] (fst r) ->
-    seq_ok (numbered num (decompose [x] (snd r))) = true ->
-    env_ok num (run_defs rho (numbered num (decompose [x] (snd r))))
-           (bind G x (fst r, map fst (decompose [x] (snd r)))) (bind V x v)
+    (forall j, ~ In j (map fst (numbered num (decompose [x] (snd r)))) -> rho' j = rho j) ->
+    Forall (fun d => rho' (fst d) = beval rho (snd d)) (numbered num (decompose [x] (snd r))) ->
+    env_ok num rho' (bind G x (fst r, map fst (decompose [x] (snd r)))) (bind V x v)
     /\ env_canon (bind G x (fst r, map fst (decompose [x] (snd r)))).
   Proof.
-    intros Hok Hcan Hs Hnames Hseq.
+    intros Hok Hcan Hs Hnames A B.
     assert (Hnum : map fst (numbered num (decompose [x] (snd r))) = map num (arg_names [x] (fst r))).
     { unfold numbered. rewrite map_map. cbn [fst]. rewrite <- Hnames. now rewrite map_map. }
-    assert (Hnd : nodupb (map fst (numbered num (decompose [x] (snd r)))) = true).
-    { rewrite Hnum. apply nodupb_true. apply NoDup_map_inj; [exact Hinj|apply arg_names_nodup]. }
-    destruct (run_defs_seq _ rho Hseq Hnd) as [A B].
     split.
     - intros y t bv Hy. rewrite lookup_bind in Hy. rewrite lookup_bind. destruct (Nat.eqb_spec y x) as [->|Hyx].
       + injection Hy as <- <-. exists v. split; [reflexivity|].
-        set (ds := decompose [x] (snd r)) in *. set (rho' := run_defs rho (numbered num ds)) in *.
+        set (ds := decompose [x] (snd r)) in *.
         assert (E : map (rbit num rho') (map fst ds) = map (beval rho) (flat (snd r))); [|rewrite E; exact Hs].
         rewrite <- (decompose_snd (snd r) [x]). fold ds. rewrite !map_map.
         apply map_ext_in. intros d Hd. unfold numbered in B. rewrite Forall_map in B.
@@ -2093,6 +2092,28 @@ Section Stmt.
     - intros y t bv Hy. rewrite lookup_bind in Hy. destruct (Nat.eqb_spec y x) as [->|Hyx].
       + injection Hy as <- <-. exact Hnames.
       + now apply Hcan in Hy.
+  Qed.
+
+  Lemma numbered_nodup x r : map fst (decompose [x] (snd r)) = arg_names [x] (fst r) ->
+    NoDup (map fst (numbered num (decompose [x] (snd r)))).
+  Proof.
+    intros Hnames. unfold numbered. rewrite map_map. cbn [fst]. rewrite <- (map_map fst num), Hnames.
+    apply NoDup_map_inj; [exact Hinj|apply arg_names_nodup].
+  Qed.
+
+  (* binding a translated value whose definitions carry the names of its type *)
+  Lemma bind_res_sound rho G V x r v :
+    env_ok num rho G V -> env_canon G -> sem rho r v ->
+    map fst (decompose [x] (snd r)) = arg_names [x] (fst r) ->
+    seq_ok (numbered num (decompose [x] (snd r))) = true ->
+    env_ok num (run_defs rho (numbered num (decompose [x] (snd r))))
+           (bind G x (fst r, map fst (decompose [x] (snd r)))) (bind V x v)
+    /\ env_canon (bind G x (fst r, map fst (decompose [x] (snd r)))).
+  Proof.
+    intros Hok Hcan Hs Hnames Hseq.
+    pose proof (nodupb_true _ (numbered_nodup x r Hnames)) as Hnd.
+    destruct (run_defs_seq _ rho Hseq Hnd) as [A B].
+    exact (bind_res_core rho _ G V x r v Hok Hcan Hs Hnames A B).
   Qed.
 
   Lemma env_good_bind G x t bv : env_good G -> ty_good t = true -> env_good (bind G x (t, bv)).
@@ -2165,6 +2186,467 @@ Section Stmt.
       exact (IH _ _ _ _ _ _ _ Hok1 Hcan1 Hgood1 Hrt Hg2 Ht2 Hv2).
   Qed.
 End Stmt.
+
+(* ================================================================== *)
+(* statements whose definitions can ALWAYS be read simultaneously      *)
+(* ================================================================== *)
+(* ---- the evaluator reads only the names that occur ---- *)
+Lemma eval_exp_fv V V' : forall e, (forall y, In y (fv e) -> lookup V y = lookup V' y) ->
+  eval_exp V e = eval_exp V' e.
+Proof.
+  induction e as [x|x p|op l IH|op a IHa|c t f IHc IHt IHf|c|l|l IH|op a b IHa IHb|op a b IHa IHb|t c|a IHa|a IHa|]
+    using pexp_ind2; intros H; cbn [fv] in H; try reflexivity.
+  - cbn [eval_exp]. apply H. now left.
+  - cbn [eval_exp]. rewrite (H x (or_introl eq_refl)). reflexivity.
+  - change (eval_exp V (EBoolOp op l)) with (obind (eval_list V l) (eval_boolop op)).
+    change (eval_exp V' (EBoolOp op l)) with (obind (eval_list V' l) (eval_boolop op)).
+    f_equal. induction IH as [|e l He _ IHl]; [reflexivity|]. cbn [eval_list flat_map] in *.
+    rewrite He by (intros y Hy; apply H, in_or_app; now left).
+    rewrite IHl by (intros y Hy; apply H, in_or_app; now right). reflexivity.
+  - cbn [eval_exp]. now rewrite IHa.
+  - cbn [eval_exp]. rewrite IHc, IHt, IHf; [reflexivity| | |]; intros y Hy; apply H; rewrite !in_app_iff; auto.
+  - change (eval_exp V (ETuple l)) with (option_map VT (eval_list V l)).
+    change (eval_exp V' (ETuple l)) with (option_map VT (eval_list V' l)).
+    f_equal. induction IH as [|e l He _ IHl]; [reflexivity|]. cbn [eval_list flat_map] in *.
+    rewrite He by (intros y Hy; apply H, in_or_app; now left).
+    rewrite IHl by (intros y Hy; apply H, in_or_app; now right). reflexivity.
+  - cbn [eval_exp]. rewrite IHa, IHb; [reflexivity| |]; intros y Hy; apply H; rewrite in_app_iff; auto.
+  - cbn [eval_exp]. rewrite IHa, IHb; [reflexivity| |]; intros y Hy; apply H; rewrite in_app_iff; auto.
+  - cbn [eval_exp]. now rewrite IHa.
+  - cbn [eval_exp]. now rewrite IHa.
+Qed.
+
+Lemma fresh_in_spec x e : fresh_in x e = true -> ~ In x (fv e).
+Proof.
+  unfold fresh_in. intros H Hin. apply negb_true_iff in H.
+  assert (existsb (Nat.eqb x) (fv e) = true); [|congruence].
+  apply existsb_exists. exists x. split; [exact Hin|apply Nat.eqb_refl].
+Qed.
+
+(* ---- decode is total on lists of the right length, and encode inverts it ---- *)
+Lemma decode_total : forall t bs, length bs = ty_size t -> exists v, decode t bs = Some v.
+Proof.
+  induction t as [|w|i f| |l IH] using ty_ind2; intros bs Hl; cbn [ty_size] in Hl.
+  - destruct bs as [|b [|]]; try discriminate. now eexists.
+  - cbn [decode]. rewrite Hl, Nat.eqb_refl. now eexists.
+  - cbn [decode]. rewrite Hl, Nat.eqb_refl. now eexists.
+  - cbn [decode]. rewrite Hl. cbn. now eexists.
+  - rewrite decode_tuple.
+    assert (G : exists vs, decode_list l bs = Some vs); [|destruct G as (vs & ->); now eexists].
+    revert bs Hl. induction IH as [|x l Hx _ IHl]; intros bs Hl; cbn [decode_list map] in *.
+    + apply length_zero_iff_nil in Hl. subst. now eexists.
+    + change (list_sum (ty_size x :: map ty_size l)) with (ty_size x + list_sum (map ty_size l))%nat in Hl.
+      destruct (Hx (firstn (ty_size x) bs)) as (a & ->); [rewrite firstn_length; lia|].
+      destruct (IHl (skipn (ty_size x) bs)) as (b & ->); [rewrite skipn_length; lia|]. now eexists.
+Qed.
+
+Lemma decode_encode : forall t bs v, decode t bs = Some v -> encode v = bs.
+Proof.
+  induction t as [|w|i f| |l IH] using ty_ind2; intros bs v H.
+  - apply decode_bool in H as (b & -> & ->). reflexivity.
+  - apply decode_qint in H as (Hl & ->). cbn [encode]. rewrite <- Hl. apply nbits_bits_val.
+  - apply decode_qfixed in H as (Hl & ->). cbn [encode]. unfold fix_val.
+    rewrite <- (qrepr_length i bs) in Hl. rewrite <- Hl, nbits_bits_val.
+    rewrite qrepr_length in Hl. now apply unrepr_qrepr.
+  - apply decode_qchar in H as (Hl & ->). cbn [encode]. rewrite <- Hl. apply nbits_bits_val.
+  - rewrite decode_tuple in H. apply option_map_some in H as (vs & H & ->). cbn [encode].
+    revert bs vs H. induction IH as [|x l Hx _ IHl]; intros bs vs H; cbn [decode_list] in H.
+    + destruct bs; [|discriminate]. now injection H as <-.
+    + destruct (decode x (firstn (ty_size x) bs)) as [a|] eqn:Ea; [|discriminate].
+      destruct (decode_list l (skipn (ty_size x) bs)) as [b|] eqn:Eb; [|discriminate]. injection H as <-.
+      cbn [flat_map]. rewrite (Hx _ _ Ea), (IHl _ _ Eb). apply firstn_skipn.
+Qed.
+
+(* the k-th bit of a value *)
+Definition bitk (k : nat) (v : value) : bool := nth k (encode v) false.
+
+Lemma den_bit rho r v k : den rho r = Some v -> beval rho (nth k (flat (snd r)) bfalse) = bitk k v.
+Proof.
+  intros H. unfold den in H. apply decode_encode in H. unfold bitk. rewrite H.
+  change false with (beval rho bfalse). now rewrite map_nth.
+Qed.
+
+(* ---- running a definition list whose k-th definition may read, of the assigned symbols, only
+   its OWN target (the old value at the same index) ---- *)
+Lemma run_defs_sem (S : list nat) rho : forall ds rho_c,
+  NoDup (map fst ds) -> (forall d, In d ds -> In (fst d) S) ->
+  (forall j, ~ In j S \/ In j (map fst ds) -> rho_c j = rho j) ->
+  (forall d, In d ds -> forall rho1, (forall j, ~ In j S \/ j = fst d -> rho1 j = rho j) ->
+                         beval rho1 (snd d) = beval rho (snd d)) ->
+  (forall d, In d ds -> run_defs rho_c ds (fst d) = beval rho (snd d))
+  /\ (forall j, ~ In j (map fst ds) -> run_defs rho_c ds j = rho_c j).
+Proof.
+  induction ds as [|[s e] ds IH]; intros rho_c Hnd HS Hinv Hind; [split; [intros d []|reflexivity]|].
+  cbn [map fst] in Hnd. inversion Hnd as [|? ? Hs Hnd']; subst.
+  rewrite run_defs_cons. set (rho_c' := fun j => if Nat.eqb j s then beval rho_c e else rho_c j).
+  assert (E0 : beval rho_c e = beval rho e).
+  { apply (Hind (s, e) (or_introl eq_refl)). intros j [Hj|Hj]; apply Hinv; [now left|right; subst; now left]. }
+  assert (HsS : In s S) by (apply (HS (s, e)); now left).
+  destruct (IH rho_c' Hnd') as [A B].
+  - intros d Hd. apply HS. now right.
+  - intros j Hj. unfold rho_c'. destruct (Nat.eqb_spec j s) as [->|Hne].
+    + exfalso. destruct Hj as [Hj|Hj]; [now apply Hj|now apply Hs].
+    + apply Hinv. destruct Hj as [Hj|Hj]; [now left|right; now right].
+  - intros d Hd. apply Hind. now right.
+  - split.
+    + intros d [<-|Hd]; [|now apply A]. cbn [fst snd]. rewrite B by exact Hs. unfold rho_c'.
+      now rewrite Nat.eqb_refl.
+    + intros j Hj. cbn [map fst In] in Hj. rewrite B by tauto. unfold rho_c'.
+      destruct (Nat.eqb_spec j s); [subst; tauto|reflexivity].
+Qed.
+
+(* ---- values ---- *)
+Lemma decode_vi_lt t bs w n : decode t bs = Some (VI w n) -> n < p2 w.
+Proof.
+  intros H. destruct (decode_type _ _ _ H) as [T _]. cbn [type_of] in T. subst t.
+  apply decode_qint in H as [Hl E]. injection E as ->. rewrite <- Hl. apply bits_val_lt.
+Qed.
+
+Lemma bitk_widen k w w' n : n < p2 w -> (w <= w')%nat -> bitk k (VI w' n) = bitk k (VI w n).
+Proof.
+  intros Hn Hw. unfold bitk. cbn [encode].
+  destruct (Nat.ltb_spec k w) as [K|K].
+  - rewrite !nbits_testbit by lia. reflexivity.
+  - rewrite (nth_overflow (nbits w n)) by (rewrite nbits_length; exact K).
+    destruct (Nat.ltb_spec k w') as [K'|K'].
+    + rewrite nbits_testbit by exact K'. apply testbit_small.
+      apply N.lt_le_trans with (p2 w); [exact Hn|]. apply p2_le. exact K.
+    + apply nth_overflow. rewrite nbits_length. exact K'.
+Qed.
+
+(* b is the type a, or a wider integer type *)
+Definition widen_of (a b : ty) : Prop := a = b \/ exists w w', a = TQint w /\ b = TQint w' /\ (w <= w')%nat.
+
+Section SelfIte.
+  Variable num : sname -> nat.
+  Variables (rho0 rho1 : nat -> bool) (G : env) (V0 V1 : venv) (x : ident) (k : nat) (v0 v1 : value).
+  Hypothesis Hok0 : env_ok num rho0 G V0.
+  Hypothesis Hok1 : env_ok num rho1 G V1.
+  Hypothesis Hcan : env_canon G.
+  Hypothesis Hsame : forall y, y <> x -> lookup V1 y = lookup V0 y.
+  Hypothesis Hx0 : lookup V0 x = Some v0.
+  Hypothesis Hx1 : lookup V1 x = Some v1.
+  Hypothesis Hty : type_of v1 = type_of v0.
+  Hypothesis Hbit : bitk k v1 = bitk k v0.
+
+  Lemma fresh_eval e : fresh_in x e = true -> eval_exp V1 e = eval_exp V0 e.
+  Proof.
+    intros F. apply eval_exp_fv. intros y Hy. apply Hsame. intros ->. exact (fresh_in_spec _ _ F Hy).
+  Qed.
+
+  Definition stable_at (e : pexp) : Prop :=
+    forall r w0, trans_exp num G e = Some r -> eval_exp V0 e = Some w0 ->
+    exists w1, eval_exp V1 e = Some w1 /\ type_of w1 = type_of w0 /\ bitk k w1 = bitk k w0.
+
+  Lemma fresh_stable e : fresh_in x e = true -> stable_at e.
+  Proof. intros F r w0 _ H0. exists w0. rewrite (fresh_eval e F). now repeat split. Qed.
+
+  (* an if-expression over stable branches *)
+  Lemma if_stable c t f : fresh_in x c = true -> stable_at t -> stable_at f -> stable_at (EIf c t f).
+  Proof.
+    intros Fc St Sf r w0 Ht H0. cbn [trans_exp] in Ht. cbn [eval_exp] in H0 |- *.
+    apply obind_some in Ht as (rc & Hrc & Ht). apply obind_some in Ht as (rt & Hrt & Ht).
+    apply obind_some in Ht as (rf & Hrf & _).
+    apply obind_some in H0 as (vc & Hvc & H0). apply obind_some in H0 as (vt0 & Hvt & H0).
+    apply obind_some in H0 as (vf0 & Hvf & H0).
+    rewrite (fresh_eval c Fc), Hvc. cbn [obind].
+    destruct (St _ _ Hrt Hvt) as (vt1 & Et & Tt & Bt). destruct (Sf _ _ Hrf Hvf) as (vf1 & Ef & Tf & Bf).
+    rewrite Et, Ef. cbn [obind].
+    destruct vc as [b| | | |]; try discriminate. cbn [eval_if] in H0 |- *. rewrite Tt, Tf.
+    destruct (ty_eq (type_of vt0) (type_of vf0)).
+    - injection H0 as <-. eexists. split; [reflexivity|]. destruct b; now split.
+    - destruct vt0 as [|wt x0| | |]; try discriminate. destruct vf0 as [|wf y0| | |]; try discriminate.
+      injection H0 as <-.
+      destruct vt1 as [|wt' x1| | |]; try discriminate. destruct vf1 as [|wf' y1| | |]; try discriminate.
+      cbn [type_of] in Tt, Tf. injection Tt as ->. injection Tf as ->.
+      eexists. split; [reflexivity|]. split; [reflexivity|].
+      pose proof (trans_exp_sound num rho0 G V0 t rt _ Hok0 Hcan Hrt Hvt) as S0t.
+      pose proof (trans_exp_sound num rho1 G V1 t rt _ Hok1 Hcan Hrt Et) as S1t.
+      pose proof (trans_exp_sound num rho0 G V0 f rf _ Hok0 Hcan Hrf Hvf) as S0f.
+      pose proof (trans_exp_sound num rho1 G V1 f rf _ Hok1 Hcan Hrf Ef) as S1f.
+      apply decode_vi_lt in S0t, S1t, S0f, S1f.
+      destruct b.
+      + rewrite (bitk_widen k wt _ x1 S1t) by lia. rewrite (bitk_widen k wt _ x0 S0t) by lia. exact Bt.
+      + rewrite (bitk_widen k wf _ y1 S1f) by lia. rewrite (bitk_widen k wf _ y0 S0f) by lia. exact Bf.
+  Qed.
+
+  Theorem selfite_stable : forall e, selfite x e = true -> stable_at e.
+  Proof.
+    induction e as [y|y p|op l IH|op a IHa|c t f IHc IHt IHf|c|l|l IH|op a b IHa IHb|op a b IHa IHb|t c|a IHa|a IHa|]
+      using pexp_ind2; cbn [selfite]; intros H; try discriminate.
+    - apply Nat.eqb_eq in H. subst y. intros r w0 _ H0. cbn [eval_exp] in H0 |- *.
+      rewrite Hx0 in H0. injection H0 as <-. exists v1. now repeat split.
+    - apply andb_true_iff in H as [Fc H]. apply if_stable; [exact Fc| |].
+      + apply orb_true_iff in H as [H|H]; apply andb_true_iff in H as [H1 H2];
+          [now apply IHt|now apply fresh_stable].
+      + apply orb_true_iff in H as [H|H]; apply andb_true_iff in H as [H1 H2]; [|now apply IHf].
+        apply orb_true_iff in H2 as [H2|H2]; [now apply IHf|now apply fresh_stable].
+  Qed.
+
+  (* the type of a self-referencing if-chain is the type of x, or a wider integer type *)
+  Theorem selfite_type : forall e w0, selfite x e = true -> eval_exp V0 e = Some w0 ->
+    widen_of (type_of v0) (type_of w0).
+  Proof.
+    induction e as [y|y p|op l IH|op a IHa|c t f IHc IHt IHf|c|l|l IH|op a b IHa IHb|op a b IHa IHb|t c|a IHa|a IHa|]
+      using pexp_ind2; cbn [selfite]; intros w0 H H0; try discriminate.
+    - apply Nat.eqb_eq in H. subst y. cbn [eval_exp] in H0. rewrite Hx0 in H0. injection H0 as <-. now left.
+    - apply andb_true_iff in H as [_ H]. cbn [eval_exp] in H0.
+      apply obind_some in H0 as (vc & _ & H0). apply obind_some in H0 as (vt0 & Hvt & H0).
+      apply obind_some in H0 as (vf0 & Hvf & H0).
+      assert (W : widen_of (type_of v0) (type_of vt0) \/ widen_of (type_of v0) (type_of vf0)).
+      { apply orb_true_iff in H as [H|H]; apply andb_true_iff in H as [H1 H2];
+          [left; now apply IHt|right; now apply IHf]. }
+      destruct vc as [b| | | |]; try discriminate. cbn [eval_if] in H0.
+      destruct (ty_eq (type_of vt0) (type_of vf0)) eqn:E.
+      + apply ty_eq_true in E. injection H0 as <-. destruct b, W as [W|W]; congruence.
+      + destruct vt0 as [|wt x0| | |]; try discriminate. destruct vf0 as [|wf y0| | |]; try discriminate.
+        injection H0 as <-. cbn [type_of] in *. right.
+        destruct W as [[W|(w & w' & A & B & C)]|[W|(w & w' & A & B & C)]].
+        * exists wt, (Nat.max wt wf). repeat split; [exact W|lia].
+        * injection B as <-. exists w, (Nat.max wt wf). repeat split; [exact A|lia].
+        * exists wf, (Nat.max wt wf). repeat split; [exact W|lia].
+        * injection B as <-. exists w, (Nat.max wt wf). repeat split; [exact A|lia].
+  Qed.
+End SelfIte.
+
+Lemma selfite_bound num G x : forall e r, selfite x e = true -> trans_exp num G e = Some r ->
+  exists b, lookup G x = Some b.
+Proof.
+  induction e as [y|y p|op l IH|op a IHa|c t f IHc IHt IHf|c|l|l IH|op a b IHa IHb|op a b IHa IHb|t c|a IHa|a IHa|]
+    using pexp_ind2; cbn [selfite]; intros r H Ht; try discriminate.
+  - apply Nat.eqb_eq in H. subst y. cbn [trans_exp] in Ht. destruct (lookup G x) as [b|]; [now exists b|discriminate].
+  - apply andb_true_iff in H as [_ H]. cbn [trans_exp] in Ht.
+    apply obind_some in Ht as (rc & _ & Ht). apply obind_some in Ht as (rt & Hrt & Ht).
+    apply obind_some in Ht as (rf & Hrf & _).
+    apply orb_true_iff in H as [H|H]; apply andb_true_iff in H as [H1 H2]; [now apply (IHt rt)|now apply (IHf rf)].
+Qed.
+
+Lemma nth_map_lt {A} (f : A -> bool) (l : list A) d k : (k < length l)%nat -> nth k (map f l) false = f (nth k l d).
+Proof. intros H. rewrite (nth_indep _ false (f d)) by (now rewrite map_length). apply map_nth. Qed.
+
+Lemma arg_names_widen base a b k : widen_of a b -> (k < ty_size a)%nat ->
+  nth k (arg_names base a) [] = nth k (arg_names base b) [].
+Proof.
+  intros [->|(w & w' & -> & -> & Hw)] Hk; [reflexivity|]. cbn [ty_size] in Hk. cbn [arg_names ty_size].
+  unfold bit_names.
+  rewrite (nth_indep _ [] (base ++ [0%nat])) by (rewrite map_length, seq_length; lia).
+  rewrite (nth_indep (map _ (seq 0 w')) [] (base ++ [0%nat])) by (rewrite map_length, seq_length; lia).
+  rewrite !(map_nth (fun i => base ++ [i])), !seq_nth by lia. reflexivity.
+Qed.
+
+Section Class.
+  Variable num : sname -> nat.
+  Hypothesis Hinj : forall a b, num a = num b -> a = b.
+
+  (* a bit name of ANOTHER binding is not among names that start with x *)
+  Lemma other_not_in G y t bv x (N : list sname) s :
+    env_canon G -> lookup G y = Some (t, bv) -> y <> x -> In s bv ->
+    (forall n, In n N -> exists suf, n = [x] ++ suf) -> ~ In (num s) (map num N).
+  Proof.
+    intros Hcan Hy Hne Hin HN H. apply in_map_iff in H as (n & En & Hn). apply Hinj in En. subst n.
+    rewrite (Hcan _ _ _ Hy) in Hin. destruct (arg_names_prefix _ _ _ Hin) as (s1 & E1).
+    destruct (HN _ Hn) as (s2 & E2). rewrite E1 in E2. cbn [app] in E2. injection E2 as E2 _. congruence.
+  Qed.
+
+  (* the environment still fits an assignment that differs from rho only on names that start with
+     x, once the value of x is re-read from that assignment *)
+  Lemma env_ok_shift rho rho1 G V x (N : list sname) :
+    env_ok num rho G V -> env_canon G ->
+    (forall n, In n N -> exists suf, n = [x] ++ suf) ->
+    (forall j, ~ In j (map num N) -> rho1 j = rho j) ->
+    exists V1, env_ok num rho1 G V1 /\ (forall y, y <> x -> lookup V1 y = lookup V y)
+      /\ (forall t bv v0, lookup G x = Some (t, bv) -> lookup V x = Some v0 ->
+            exists v1, lookup V1 x = Some v1 /\ type_of v1 = type_of v0 /\
+                       encode v1 = map (rbit num rho1) bv /\ encode v0 = map (rbit num rho) bv).
+  Proof.
+    intros Hok Hcan HN Hag.
+    assert (Oth : forall y t bv, lookup G y = Some (t, bv) -> y <> x ->
+                    map (rbit num rho1) bv = map (rbit num rho) bv).
+    { intros y t bv Hy Hne. apply map_ext_in. intros s Hs. unfold rbit. apply Hag.
+      exact (other_not_in G y t bv x N s Hcan Hy Hne Hs HN). }
+    destruct (lookup G x) as [[t bv]|] eqn:E.
+    - destruct (Hok _ _ _ E) as (v0 & Hv0 & Hd0). destruct (decode_type _ _ _ Hd0) as [T0 L0].
+      rewrite map_length in L0.
+      destruct (decode_total t (map (rbit num rho1) bv)) as (v1 & Hd1); [now rewrite map_length|].
+      exists (bind V x v1). split; [|split].
+      + intros y ty bvy Hy. rewrite lookup_bind. destruct (Nat.eqb_spec y x) as [->|Hne].
+        * rewrite E in Hy. injection Hy as <- <-. now exists v1.
+        * destruct (Hok _ _ _ Hy) as (vy & Hvy & Hdy). exists vy. split; [exact Hvy|].
+          now rewrite (Oth _ _ _ Hy Hne).
+      + intros y Hne. rewrite lookup_bind. now destruct (Nat.eqb_spec y x).
+      + intros t' bv' v0' Ht' Hv0'. injection Ht' as <- <-. rewrite Hv0 in Hv0'. injection Hv0' as <-.
+        exists v1. rewrite lookup_bind, Nat.eqb_refl. split; [reflexivity|].
+        destruct (decode_type _ _ _ Hd1) as [T1 _]. split; [congruence|].
+        split; [exact (decode_encode _ _ _ Hd1)|exact (decode_encode _ _ _ Hd0)].
+    - exists V. split; [|split; [reflexivity|discriminate]].
+      intros y ty bvy Hy. destruct (Hok _ _ _ Hy) as (vy & Hvy & Hdy). exists vy. split; [exact Hvy|].
+      assert (Hne : y <> x) by (intros ->; congruence). now rewrite (Oth _ _ _ Hy Hne).
+  Qed.
+
+  (* under an assignment that differs from rho on names of x other than the k-th, the translation of
+     an expression of the class denotes a value with the same k-th bit *)
+  Lemma class_den rho G V x e r0 v (N : list sname) k rho1 :
+    env_ok num rho G V -> env_canon G ->
+    trans_exp num G e = Some r0 -> eval_exp V e = Some v ->
+    (forall n, In n N -> exists suf, n = [x] ++ suf) ->
+    (forall j, ~ In j (map num N) \/ j = num (nth k N []) -> rho1 j = rho j) ->
+    (fresh_in x e = true \/ (selfite x e = true /\ N = arg_names [x] (type_of v))) ->
+    exists w1, den rho1 r0 = Some w1 /\ type_of w1 = type_of v /\ bitk k w1 = bitk k v.
+  Proof.
+    intros Hok Hcan Ht Hv HN Hag Hcl.
+    destruct (env_ok_shift rho rho1 G V x N Hok Hcan HN (fun j Hj => Hag j (or_introl Hj)))
+      as (V1 & Hok1 & Hsame & Hx).
+    destruct Hcl as [F|[S HNeq]].
+    - assert (E : eval_exp V1 e = Some v).
+      { rewrite <- Hv. apply eval_exp_fv. intros y Hy. apply Hsame. intros ->. exact (fresh_in_spec _ _ F Hy). }
+      exists v. split; [exact (trans_exp_sound num rho1 G V1 e r0 v Hok1 Hcan Ht E)|now split].
+    - destruct (selfite_bound num G x e r0 S Ht) as ([t bv] & HG).
+      destruct (Hok _ _ _ HG) as (v0 & Hv0 & Hd0). destruct (decode_type _ _ _ Hd0) as [T0 L0].
+      rewrite map_length in L0.
+      destruct (Hx t bv v0 HG Hv0) as (v1 & Hv1 & Ty & E1 & E0).
+      pose proof (selfite_type V x v0 Hv0 e v S Hv) as W.
+      assert (Hbit : bitk k v1 = bitk k v0).
+      { unfold bitk. rewrite E1, E0. destruct (Nat.ltb_spec k (length bv)) as [K|K].
+        - rewrite !(nth_map_lt _ bv []) by exact K. unfold rbit. apply Hag. right. f_equal.
+          rewrite (Hcan _ _ _ HG), HNeq. apply arg_names_widen; [rewrite <- T0; exact W|lia].
+        - rewrite !nth_overflow by (rewrite map_length; exact K). reflexivity. }
+      destruct (selfite_stable num rho rho1 G V V1 x k v0 v1 Hok Hok1 Hcan Hsame Hv0 Hv1 Ty Hbit e S r0 v Ht Hv)
+        as (w1 & Ew & Tw & Bw).
+      exists w1. split; [exact (trans_exp_sound num rho1 G V1 e r0 w1 Hok1 Hcan Ht Ew)|now split].
+  Qed.
+
+  (* binding a value whose k-th definition may read, of the assigned symbols, only the k-th *)
+  Lemma class_bind rho G V x r v :
+    env_ok num rho G V -> env_canon G -> sem rho r v ->
+    map fst (decompose [x] (snd r)) = arg_names [x] (fst r) ->
+    (forall k rho1,
+        (forall j, ~ In j (map num (arg_names [x] (fst r))) \/ j = num (nth k (arg_names [x] (fst r)) []) ->
+                   rho1 j = rho j) ->
+        beval rho1 (nth k (flat (snd r)) bfalse) = beval rho (nth k (flat (snd r)) bfalse)) ->
+    env_ok num (run_defs rho (numbered num (decompose [x] (snd r))))
+           (bind G x (fst r, map fst (decompose [x] (snd r)))) (bind V x v)
+    /\ env_canon (bind G x (fst r, map fst (decompose [x] (snd r)))).
+  Proof.
+    intros Hok Hcan Hs Hnames Hind.
+    set (dec := decompose [x] (snd r)) in *. set (ds := numbered num dec).
+    assert (HS : map fst ds = map num (arg_names [x] (fst r))).
+    { unfold ds, numbered. rewrite map_map. cbn [fst]. rewrite <- Hnames. now rewrite map_map. }
+    destruct (run_defs_sem (map fst ds) rho ds rho) as [A B].
+    - exact (numbered_nodup num Hinj x r Hnames).
+    - intros d Hd. now apply in_map.
+    - reflexivity.
+    - intros d Hd rho1 Hag.
+      destruct (In_nth ds d (num [], bfalse) Hd) as (k & Hk & <-).
+      unfold ds, numbered in *. rewrite map_length in Hk.
+      change (num [], bfalse) with ((fun d0 : sname * bexp => (num (fst d0), snd d0)) ([], bfalse)) in *.
+      rewrite map_nth in *. cbn [fst snd] in *.
+      assert (F1 : fst (nth k dec ([], bfalse)) = nth k (arg_names [x] (fst r)) []).
+      { rewrite <- Hnames. symmetry. exact (map_nth fst dec ([], bfalse) k). }
+      assert (F2 : snd (nth k dec ([], bfalse)) = nth k (flat (snd r)) bfalse).
+      { rewrite <- (decompose_snd (snd r) [x]). symmetry. exact (map_nth snd dec ([], bfalse) k). }
+      rewrite F2. apply Hind. intros j Hj. apply Hag. rewrite F1. rewrite HS in *.
+      destruct Hj as [Hj|Hj]; [left|right]; assumption.
+    - apply (bind_res_core num Hinj rho _ G V x r v Hok Hcan Hs Hnames).
+      + intros j Hj. apply B. exact Hj.
+      + apply Forall_forall. intros d Hd. now apply A.
+  Qed.
+
+  (* ONE statement: in the syntactic class nothing is asked; outside it, seq_ok *)
+  Theorem trans_stmt_sound2 rho G V rt s ds G' V' :
+    env_ok num rho G V -> env_canon G -> env_good G -> ty_good rt = true ->
+    stmt_guard2 num G rt s = true ->
+    trans_stmt num G rt s = Some (ds, G') -> eval_stmt V rt s = Some V' ->
+    env_ok num (run_defs rho (numbered num ds)) G' V' /\ env_canon G' /\ env_good G'.
+  Proof.
+    intros Hok Hcan Hgood Hrt Hg Ht Hv. unfold stmt_guard2 in Hg.
+    destruct (stmt_class s) eqn:Cl; [|exact (trans_stmt_sound num Hinj rho G V rt s ds G' V' Hok Hcan Hgood Hrt Hg Ht Hv)].
+    clear Hg. destruct s as [x e|e|e|]; cbn [trans_stmt eval_stmt stmt_class] in *.
+    - (* Assign *)
+      unfold trans_assign in Ht.
+      destruct (trans_exp num G e) as [r0|] eqn:Et; [|discriminate]. injection Ht as <- <-.
+      apply option_map_some in Hv as (v & Hv & ->).
+      pose proof (trans_exp_sound num rho G V e _ v Hok Hcan Et Hv) as Hs.
+      pose proof (trans_exp_wf num rho G V Hok Hcan Hgood e _ v Et Hv) as W.
+      pose proof (trans_exp_good num rho G V Hok Hcan Hgood e _ v Et Hv) as Gv.
+      pose proof (regroup_canon rho x r0 v Hs W) as Hn. rewrite <- (regroup_value_type r0) in Hn.
+      pose proof (regroup_value_sem rho _ _ Hs) as Hs'.
+      destruct (class_bind rho G V x (regroup_value r0) v Hok Hcan Hs' Hn) as [A B].
+      + intros k rho1 Hag. rewrite regroup_value_type in Hag.
+        destruct (class_den rho G V x e r0 v (arg_names [x] (fst r0)) k rho1 Hok Hcan Et Hv
+                    (fun n Hn' => arg_names_prefix _ _ _ Hn') Hag) as (w1 & D1 & T1 & B1).
+        * apply orb_true_iff in Cl as [F|S]; [now left|right]. split; [exact S|].
+          now rewrite (sem_type _ _ _ Hs).
+        * pose proof (regroup_value_sem rho1 _ _ D1) as D1'.
+          rewrite (den_bit rho1 _ _ k D1'), (den_bit rho _ _ k Hs'). exact B1.
+      + split; [exact A|split; [exact B|]]. apply env_good_bind; [exact Hgood|].
+        rewrite regroup_value_type. unfold vgood in Gv. now rewrite (sem_type _ _ _ Hs) in Gv.
+    - (* Return *)
+      unfold trans_return in Ht.
+      apply obind_some in Ht as (r0 & Et & Ht). apply obind_some in Ht as (r1 & Ec & Ht).
+      destruct (lookup G ret_id); [discriminate|]. injection Ht as <- <-.
+      apply obind_some in Hv as (v & Hv & Hv'). apply obind_some in Hv' as (v' & Hc & Hv').
+      destruct (lookup V ret_id); [discriminate|]. injection Hv' as <-.
+      pose proof (trans_exp_sound num rho G V e _ v Hok Hcan Et Hv) as Hs.
+      pose proof (trans_exp_wf num rho G V Hok Hcan Hgood e _ v Et Hv) as W.
+      destruct (ret_coerce_sound rho rt r0 v r1 v' Hs Ec Hc) as [Hs1 Hty].
+      pose proof (ret_coerce_wf rt r0 r1 W Ec) as W1.
+      pose proof (regroup_canon rho ret_id r1 v' Hs1 W1) as Hn. rewrite <- (regroup_value_type r1) in Hn.
+      pose proof (regroup_value_sem rho _ _ Hs1) as Hs'.
+      destruct (class_bind rho G V ret_id (regroup_value r1) v' Hok Hcan Hs' Hn) as [A B].
+      + intros k rho1 Hag. rewrite regroup_value_type in Hag.
+        destruct (class_den rho G V ret_id e r0 v (arg_names [ret_id] (fst r1)) k rho1 Hok Hcan Et Hv
+                    (fun n Hn' => arg_names_prefix _ _ _ Hn') Hag (or_introl Cl)) as (w1 & D1 & T1 & B1).
+        assert (E : w1 = v).
+        { (* fresh: the value is the same, not only its k-th bit *)
+          destruct (env_ok_shift rho rho1 G V ret_id (arg_names [ret_id] (fst r1)) Hok Hcan
+                      (fun n Hn' => arg_names_prefix _ _ _ Hn') (fun j Hj => Hag j (or_introl Hj)))
+            as (V1 & Hok1 & Hsame & _).
+          assert (E1 : eval_exp V1 e = Some v).
+          { rewrite <- Hv. apply eval_exp_fv. intros y Hy. apply Hsame. intros ->. exact (fresh_in_spec _ _ Cl Hy). }
+          pose proof (trans_exp_sound num rho1 G V1 e r0 v Hok1 Hcan Et E1) as D. unfold sem in D. congruence. }
+        subst w1. destruct (ret_coerce_sound rho1 rt r0 v r1 v' D1 Ec Hc) as [D2 _].
+        pose proof (regroup_value_sem rho1 _ _ D2) as D2'.
+        now rewrite (den_bit rho1 _ _ k D2'), (den_bit rho _ _ k Hs').
+      + split; [exact A|split; [exact B|]]. apply env_good_bind; [exact Hgood|].
+        rewrite regroup_value_type, Hty. exact Hrt.
+    - destruct (trans_exp num G e); [|discriminate]. injection Ht as <- <-.
+      apply option_map_some in Hv as (v & _ & ->). now repeat split.
+    - discriminate.
+  Qed.
+
+  Theorem trans_body_sound2 : forall body rho G V rt ds G' V',
+    env_ok num rho G V -> env_canon G -> env_good G -> ty_good rt = true ->
+    body_guard2 num G rt body = true ->
+    trans_body num G rt body = Some (ds, G') -> eval_body V rt body = Some V' ->
+    env_ok num (run_defs rho (numbered num ds)) G' V' /\ env_canon G' /\ env_good G'.
+  Proof.
+    induction body as [|s body IH]; intros rho G V rt ds G' V' Hok Hcan Hgood Hrt Hg Ht Hv.
+    - cbn in Ht, Hv. injection Ht as <- <-. injection Hv as <-. now repeat split.
+    - cbn [trans_body eval_body body_guard2] in *.
+      apply andb_true_iff in Hg as [Hg1 Hg2].
+      apply obind_some in Ht as ([ds1 G1] & Ht1 & Ht). apply obind_some in Ht as ([ds2 G2] & Ht2 & Ht).
+      cbn [fst snd] in *. injection Ht as <- <-. apply obind_some in Hv as (V1 & Hv1 & Hv2).
+      rewrite Ht1 in Hg2. cbn [snd] in Hg2.
+      destruct (trans_stmt_sound2 rho G V rt s ds1 G1 V1 Hok Hcan Hgood Hrt Hg1 Ht1 Hv1) as (Hok1 & Hcan1 & Hgood1).
+      unfold numbered. rewrite map_app, run_defs_app. fold (numbered num ds1). fold (numbered num ds2).
+      exact (IH _ _ _ _ _ _ _ Hok1 Hcan1 Hgood1 Hrt Hg2 Ht2 Hv2).
+  Qed.
+End Class.
+
+(* a body all of whose statements are in the class needs no per-program condition *)
+Lemma body_class_guard2 num : forall body G rt, forallb stmt_class body = true -> body_guard2 num G rt body = true.
+Proof.
+  induction body as [|s body IH]; intros G rt H; [reflexivity|]. cbn [forallb] in H. apply andb_true_iff in H as [H1 H2].
+  cbn [body_guard2]. unfold stmt_guard2. rewrite H1. cbn [orb andb].
+  destruct (trans_stmt num G rt s) as [dg|]; [now apply IH|reflexivity].
+Qed.
+
+Lemma body_guard_guard2 num : forall body G rt, body_guard num G rt body = true -> body_guard2 num G rt body = true.
+Proof.
+  induction body as [|s body IH]; intros G rt H; [reflexivity|]. unfold body_guard in H. cbn [body_guard_g] in H.
+  apply andb_true_iff in H as [H1 H2]. cbn [body_guard2]. unfold stmt_guard2. rewrite H1, orb_true_r. cbn [andb].
+  destruct (trans_stmt num G rt s) as [dg|]; [now apply IH|reflexivity].
+Qed.
 
 (* ================================================================== *)
 (* a whole function                                                    *)
@@ -2264,7 +2746,7 @@ Theorem trans_fun_sound num rho args rt body vs lf v :
   (forall a b, num a = num b -> a = b) ->
   trans_fun num args rt body = Some lf -> eval_fun args rt body vs = Some v ->
   wf_args args = true -> ty_good rt = true -> wf_body body = true ->
-  body_guard num (arg_env args) rt body = true ->
+  body_guard2 num (arg_env args) rt body = true ->
   args_encoded num rho args vs ->
   lf_ret lf = (rt, arg_names [ret_id] rt) /\
   decode rt (map (fun s => run_defs rho (numbered num (lf_defs lf)) (num s)) (arg_names [ret_id] rt)) = Some v.
@@ -2276,7 +2758,7 @@ Proof.
   unfold eval_fun in Hv. destruct (negb (Nat.eqb (length args) (length vs))) eqn:Hlen; [discriminate|].
   destruct (negb (forallb _ (combine args vs))); [discriminate|].
   apply obind_some in Hv as (V' & Hev & Hret).
-  destruct (trans_body_sound num Hinj body rho _ _ rt ds G' V' (arg_env_ok num rho args vs Henc) (arg_env_canon args)
+  destruct (trans_body_sound2 num Hinj body rho _ _ rt ds G' V' (arg_env_ok num rho args vs Henc) (arg_env_canon args)
               (arg_env_good args Hwt) Hgrt Hg Hb Hev) as (Hok & Hcan & _).
   assert (Hdom0 : dom_sub (combine (map fst args) vs) (arg_env args)).
   { apply negb_false_iff, Nat.eqb_eq in Hlen. clear -Hlen. revert vs Hlen.
@@ -2290,6 +2772,22 @@ Proof.
   rewrite Hret in Hv0. injection Hv0 as <-.
   pose proof (Hcan _ _ _ HG) as ->. destruct (decode_type _ _ _ Hd) as [Ty _].
   rewrite (Hrt _ Hret) in Ty. subst t. exact Hd.
+Qed.
+
+(* ... and when every statement is in the syntactic class (target not read by its right-hand side,
+   or read only as the unchanged branch of if-expressions), NO per-program condition is left *)
+Corollary trans_fun_sound_class num rho args rt body vs lf v :
+  (forall a b, num a = num b -> a = b) ->
+  trans_fun num args rt body = Some lf -> eval_fun args rt body vs = Some v ->
+  wf_args args = true -> ty_good rt = true -> wf_body body = true ->
+  forallb stmt_class body = true ->
+  args_encoded num rho args vs ->
+  lf_ret lf = (rt, arg_names [ret_id] rt) /\
+  decode rt (map (fun s => run_defs rho (numbered num (lf_defs lf)) (num s)) (arg_names [ret_id] rt)) = Some v.
+Proof.
+  intros Hinj Ht Hv Hwa Hgrt Hwf Hcl Henc.
+  exact (trans_fun_sound num rho args rt body vs lf v Hinj Ht Hv Hwa Hgrt Hwf
+           (body_class_guard2 num body (arg_env args) rt Hcl) Henc).
 Qed.
 
 (* ================================================================== *)
@@ -2474,7 +2972,7 @@ Lemma seq_ok_needed :
     eval_fun ex_self_args (TQint 2) ex_self_body vs = Some v /\
     wf_args ex_self_args = true /\ ty_good (TQint 2) = true /\ wf_body ex_self_body = true /\
     args_encoded enc rho ex_self_args vs /\
-    body_guard enc (arg_env ex_self_args) (TQint 2) ex_self_body = false /\
+    body_guard2 enc (arg_env ex_self_args) (TQint 2) ex_self_body = false /\
     decode (TQint 2) (map (fun s => run_defs rho (numbered enc (lf_defs lf)) (enc s)) (arg_names [ret_id] (TQint 2)))
       <> Some v.
 Proof.
